@@ -178,6 +178,7 @@ def run(ctx):
     from props.c03 import preinsert_rule
     preinsert_rule(ctx, prog, rid="C14.PREINSERT")   # a refused insertion must leave no id behind
     parsefirst_rule(ctx)
+    bracket_rule(ctx, prog)
     seen_pairs = set()
     for e in sorted(entries, key=lambda b: b.id):
         ctx.functions_analysed.add(e.id)
@@ -348,3 +349,58 @@ def parsefirst_rule(ctx, rid="C14.PARSEFIRST"):
         e_ = strip(inits[0]["e"])
         if not (e_.get("k") == "call" and unparse(e_["func"]).replace(" ", "") == "Some"):
             ctx.report(r, "target-not-some", "the conversion of AnnotationJson into an AnnotationBuilder initialises target with `%s` instead of Some(..): a builder without a target can come out of a parsed file" % unparse(inits[0]["e"])[:40], conv[0].file, inits[0].get("l"))
+
+
+# ---------------------------------------------------------------------- BRACKET
+def bracket_rule(ctx, prog, rid="C14.BRACKET"):
+    """a merge puts the store into a temporary state - merge mode on, for a file also the working directory of the
+    included file and no filename of its own - and takes it back afterwards.  `afterwards` has to include the failing
+    exits: a `?` between the two halves leaves a store that has forgotten its filename and treats the next load as a
+    merge.  MIR path rule, in every function that switches merge mode on: (a) every path from set_merge_mode(true) to a
+    return passes set_merge_mode(false); (b) a field of self that is assigned and, on some path, assigned again later
+    (saved / restored) is assigned again on every path to a return."""
+    r = ctx.rule(rid, "in the functions that switch merge mode on, every path to a return - the failing ones included - switches it off again and restores every field of the store that was set temporarily")
+    n = 0
+    for bid, b in sorted(prog.bodies.items()):
+        if b.d.get("derived"):
+            continue
+        ons, offs = [], set()
+        for bi, t in b.calls():
+            if (mirq.callee_of(t)[0] or "").endswith("AnnotationStore::set_merge_mode") and len(t.get("args", [])) >= 2:
+                k = str(b.key_of_operand(t["args"][1]))
+                if k in ("const:true", "const:1"):
+                    ons.append(bi)
+                elif k in ("const:false", "const:0"):
+                    offs.add(bi)
+        if not ons:
+            continue
+        n += 1
+        ctx.functions_analysed.add(bid)
+        rets = [bi for bi, blk in enumerate(b.blocks) if blk["t"]["t"] == "return"]
+        leak = False
+        for on in ons:
+            nxt = b.blocks[on]["t"].get("target")
+            if isinstance(nxt, int) and nxt not in offs and any(nxt == rt or b.can_reach(nxt, rt, avoid=offs) for rt in rets):
+                leak = True
+        # fields of self assigned more than once along a path
+        assigns = {}
+        for bi, blk in enumerate(b.blocks):
+            for s_ in blk["s"]:
+                p_ = s_.get("p") or {}
+                if p_.get("l") == 1 and p_.get("p") and "rv" in s_:
+                    names = tuple(x.get("n") for x in p_["p"] if isinstance(x, dict) and x.get("n"))
+                    if names:
+                        assigns.setdefault(names, set()).add(bi)
+        unrestored = []
+        for names, blocks in sorted(assigns.items()):
+            for a in sorted(blocks):
+                later = set(x for x in blocks if x != a and b.can_reach(a, x))
+                if later and any(b.can_reach(a, rt, avoid=later) for rt in rets):
+                    unrestored.append(".".join(names))
+                    break
+        r.hit(bid, sample={"fn": mirq.short_fn(bid), "merge_mode_left_on": leak, "fields_not_restored_on_some_path": unrestored})
+        if leak:
+            ctx.report(r, "%s|merge-mode" % mirq.short_fn(bid), "%s can return with merge mode still switched on (a failing `?` between set_merge_mode(true) and set_merge_mode(false)): after a failed merge the store keeps accepting duplicate dataset ids as a merge would" % bid, b.file, b.blocks[ons[0]]["t"].get("line"))
+        for f_ in unrestored:
+            ctx.report(r, "%s|field:%s" % (mirq.short_fn(bid), f_), "%s sets self.%s temporarily and restores it on the successful path only: a failing exit in between leaves the store with the temporary value (no filename of its own, the working directory of the file that failed to load)" % (bid, f_), b.file, b.line)
+    ctx.floor(r, n, 2, "functions that switch merge mode on")
